@@ -193,15 +193,35 @@ def load_known():
     return json.load(open(p))
 
 
+def sha_key(key):
+    """'<id>|<sha>|t..|b..|r..' -> '<sha>|t..|b..|r..' (None when there is no input digest)."""
+    parts = key.split("|")
+    if len(parts) >= 5 and parts[-4]:
+        return "|".join(parts[-4:])
+    return None
+
+
 def known_index(prop):
-    """key -> group name, for the given property."""
+    """key -> group name, for the given property.  An element is identified by the digest of its input text and the
+    configuration; the universe element id is kept in the file for the reader (identical texts reached through
+    different placements are recorded once, under the id that came first)."""
     idx = {}
     for g in load_known().get("groups", []):
         if prop not in g.get("properties", []):
             continue
         for el in g.get("elements", {}).get(prop, []):
             idx[el] = g["group"]
+            sk = sha_key(el)
+            if sk:
+                idx[sk] = g["group"]
     return idx
+
+
+def known_lookup(idx, key):
+    if key in idx:
+        return idx[key]
+    sk = sha_key(key)
+    return idx.get(sk) if sk else None
 
 
 def viol_key(v):
